@@ -98,21 +98,26 @@ example : ∀ a ∈ (⟨[1, 2], false⟩ : Cfg).addrs, ([3] : List Nat).contains
 /-! ### the judges are not vacuous (tests of the executable predicates on hand-made observations) -/
 
 /-- a reload that closes and rebinds the socket is rejected, -/
-example : stepLaw [3] { gen := 1, addrs := [1], prev := ⟨"ok", 1, 0, 1, 0, "1", "-", none, none⟩, next := 2 }
-    (.reload ⟨[1], false⟩) ⟨"ok", 1, 0, 2, 0, "2", "-", none, none⟩ = some "socket-rebound" := by decide
+example : stepLaw [3] { gen := 1, addrs := [1], prev := ⟨"ok", 1, 0, 1, 0, "1", "-", 1, none, none⟩, next := 2 }
+    (.reload ⟨[1], false⟩) ⟨"ok", 1, 0, 2, 0, "2", "-", 1, none, none⟩ = some "socket-rebound" := by decide
 
 /-- so is an old configuration answering after the reload returned, -/
-example : stepLaw [3] { gen := 1, addrs := [1], prev := ⟨"ok", 1, 0, 1, 0, "1", "-", none, none⟩, next := 2 }
-    (.reload ⟨[1], false⟩) ⟨"ok", 1, 0, 1, 0, "1", "-", none, none⟩ = some "after-return-not-new" := by decide
+example : stepLaw [3] { gen := 1, addrs := [1], prev := ⟨"ok", 1, 0, 1, 0, "1", "-", 1, none, none⟩, next := 2 }
+    (.reload ⟨[1], false⟩) ⟨"ok", 1, 0, 1, 0, "1", "-", 1, none, none⟩ = some "after-return-not-new" := by decide
 
 /-- a request in flight that is cut off, -/
-example : stepLaw [3] { gen := 1, addrs := [1], prev := ⟨"ok", 1, 0, 1, 0, "1", "-", none, none⟩, next := 2 }
-    (.straddle ⟨[1], false⟩) ⟨"ok", 1, 0, 1, 0, "2", "-", some "2", some "e:reset"⟩ = some "request-in-flight-dropped" := by
+example : stepLaw [3] { gen := 1, addrs := [1], prev := ⟨"ok", 1, 0, 1, 0, "1", "-", 1, none, none⟩, next := 2 }
+    (.straddle ⟨[1], false⟩) ⟨"ok", 1, 0, 1, 0, "2", "-", 1, some "2", some "e:reset"⟩ = some "request-in-flight-dropped" := by
   decide
 
 /-- a failed reload that leaves a descriptor behind, -/
-example : stepLaw [3] { gen := 1, addrs := [1], prev := ⟨"ok", 1, 0, 1, 0, "1", "-", none, none⟩, next := 2 }
-    (.reload ⟨[1, 3], false⟩) ⟨"err", 2, 0, 1, 0, "1", "-", none, none⟩ = some "failed-reload-changed-sockets" := by decide
+example : stepLaw [3] { gen := 1, addrs := [1], prev := ⟨"ok", 1, 0, 1, 0, "1", "-", 1, none, none⟩, next := 2 }
+    (.reload ⟨[1, 3], false⟩) ⟨"err", 2, 0, 1, 0, "1", "-", 1, none, none⟩ = some "failed-reload-changed-sockets" := by decide
+
+/-- a reload reported as failed, with the old instance still in the instance list and its second server still accepting,
+because the drain of the first one timed out, -/
+example : stepLaw [3] { gen := 1, addrs := [1, 2], prev := ⟨"ok", 1, 1, 1, 2, "1", "1", 1, none, none⟩, next := 2 }
+    (.longflight ⟨[1, 2], false⟩) ⟨"err", 1, 2, 1, 2, "2", "1", 2, none, some "1"⟩ = some "instance-list" := by decide
 
 /-- and, in a storm, a dropped request or one answered by the old configuration after the reload had returned. -/
 example : stormVerdict [⟨1, 2, 2, true⟩] [⟨3, 4, some 2⟩, ⟨5, 6, none⟩] = "bad:request-dropped:" := by decide
